@@ -64,6 +64,26 @@ def run(res, tier):
         n, bad, st = validate_traces(tmp, tr, "udp_traces.ndjson", "L4UdpTrace.tla", "L4UdpTrace.cfg")
         cov.update(traces_validated_against_impl=n, free_running=dict(scenarios=len(g), runs=s["runs"], deliveries=s["deliveries"]),
                    samples=s["samples"][:2] or [dict(note="no short sample")])
+        # 3. gate-scheduled interleavings (hooks): the close / next-datagram race, forced
+        trg = os.path.join(tmp, "udp_gated.ndjson")
+        sumg = os.path.join(tmp, "sumg.json")
+        rc, out, err = run_child(vdrive, ["udp-gated", "-out", trg, "-summary", sumg, "-reps", "30" if tier == "quick" else "300"])
+        if rc != 0:
+            if "panic:" in err:
+                crash_violation(res, out, err, "udp-gated")
+                return
+            raise Inconclusive(f"udp-gated failed rc={rc}: {out[-1000:]} {err[-2000:]}")
+        sg = json.load(open(sumg))
+        if sg["infeasible"] > sg["runs"] // 2:
+            raise Inconclusive(f"gate schedule infeasible in {sg['infeasible']} of {sg['runs']} runs (hooks compiled out or moved?)")
+        ng, badg, _ = validate_traces(tmp, trg, "udp_traces.ndjson", "L4UdpTrace.tla", "L4UdpTrace.cfg")
+        cov["traces_validated_against_impl"] += ng
+        cov["gate_scheduled"] = dict(schedule="handler returns -> Close closes done -> [gate] same client's next datagram reaches the loop -> release", runs=sg["runs"], infeasible=sg["infeasible"])
+        cov["samples"] += sg["samples"][:1]
+        bad += badg
+        with open(tr, "a") as o:
+            for line in open(trg):
+                o.write(line)
         traces = {}
         for line in open(tr):
             t = json.loads(line)
